@@ -23,7 +23,8 @@ RULE = ('Static: every ordered pair of the known protocol numbers through '
         'list (ordinary numbers increasing, PRE numbers increasing, snapshot '
         'ids YYwWWx non-decreasing). Histories: Hypothesis rule-based '
         'machine over append/insert/duplicate-protocol/flip-supported/'
-        'legacy-dict-extension/reinit(known)/reinit(default) on the real '
+        'legacy-dict-extension/rebinding the records attribute to a new '
+        'list/reinit(known)/reinit(default) on the real '
         'module-level tables, compared after every step with a model '
         'projection; table object identity, idempotence, Connection accepts '
         'newly supported versions. Non-trivial: static pairs a!=b where '
